@@ -7,7 +7,7 @@ ROOT = os.path.dirname(os.path.dirname(os.path.abspath(__file__)))
 
 SPECS = {
     "C01": {
-        "corr": ["RGA", "ERHT", "Text", "TextSty", "Proto"],
+        "corr": ["RGA", "RGA2", "ERHT", "Text", "TextSty", "Proto"],
         "engines": [
             {"name": "hist", "tag": "c01", "extra": "prop=C01", "n": {"quick": 700, "thorough": 12000}},
             {"name": "rga", "n": {"quick": 500, "thorough": 6000}},
@@ -17,13 +17,13 @@ SPECS = {
         ],
         "explanation": "Generic convergence theorem (commutation of concurrent operations => all causal delivery orders agree); commutation proved for counters, for array inserts on the RGAList model, for batches of object Sets and Removes (any delivery order) and for pairs of concurrent text edits on the character-level model of RGATreeSplit.edit; delivery discipline proved in C04. The structure models (RGAList incl. move/set/purge, ElementRHT, Counter, TextRGA) are compared with the real structures on random call sequences (text: 2-3 replicas of crdt.Text with causal delivery, the complete node list after every execution); the convergence oracle runs on real multi-client histories (2-5 clients, all flavors, push-only syncs).",
         "assumptions": [
-            "PARTIAL: proved - object members (batches of Sets and Removes, any order), text (any number of pairwise concurrent honest edits in any order; style/style and style/edit commutation), counters, array inserts; not proved - array move/delete/set, tree; those clauses rest on the structure correspondence and on the convergence oracle",
+            "PARTIAL: proved - object members (batches of Sets and Removes, any order), text (any number of pairwise concurrent honest edits in any order; style/style and style/edit commutation), arrays (any number of concurrent inserts, moves, deletes in any order, on the position-list model run in lockstep with the slot model), counters, array inserts; not proved - array set-by-index (finding P13), tree; those clauses rest on the structure correspondence and on the convergence oracle",
             "text model: characters instead of runs (the harness expands runs), attribute tables beside the list; undo restore spans, GC of attributes and the index trees are not modelled",
             "Root/operation glue (operations.Execute, json proxies) is exercised only by the history oracle, not modelled",
         ],
     },
     "C02": {
-        "corr": ["RGA", "ERHT"],
+        "corr": ["RGA", "RGA2", "ERHT"],
         "engines": [
             {"name": "hist", "tag": "c02", "extra": "prop=C02", "n": {"quick": 500, "thorough": 8000}},
             {"name": "erht", "n": {"quick": 300, "thorough": 3000}, "seed_off": 11},
@@ -35,7 +35,7 @@ SPECS = {
         ],
     },
     "C03": {
-        "corr": ["RGA", "ERHT", "Proto"],
+        "corr": ["RGA", "RGA2", "ERHT", "Proto"],
         "engines": [
             {"name": "hist", "tag": "c03", "extra": "prop=C03", "n": {"quick": 500, "thorough": 8000}},
             {"name": "rga", "n": {"quick": 300, "thorough": 4000}, "seed_off": 7},
@@ -46,7 +46,7 @@ SPECS = {
         ],
     },
     "C07": {
-        "corr": ["RGA", "ERHT", "Text"],
+        "corr": ["RGA", "RGA2", "ERHT", "Text"],
         "engines": [
             {"name": "textrga", "n": {"quick": 120, "thorough": 2000}, "seed_off": 9},
             {"name": "rga", "n": {"quick": 600, "thorough": 8000}, "seed_off": 3},
